@@ -91,6 +91,7 @@ type interpreter struct {
 	goroutines         int32                  // atomically updated
 	ex                 *explorer              // symbolic exploration state (per worker)
 	ownPkg             func(*ssa.Package) bool
+	sentinels          map[string]value // std sentinel errors by "pkg.Name"
 }
 
 type deferred struct {
